@@ -329,3 +329,42 @@ Section Log.
   Definition debug_log_in (e : event) : str :=
     t_lt ++ (if ev_echo e then t_echo else []) ++ strip_raw (event_bytes e).
 End Log.
+
+(* ---- what a session prints ------------------------------------------------
+   One record per logged event: the line handed to Config.Debug and the lines handed to
+   Config.Out.  Outgoing events are logged by sendLoop (debugLogEvent), every event
+   execLoop dequeues by RunHandlers -- including the ERROR a handler injects. *)
+Section SessionLog.
+  Variable strip_raw : str -> str.
+  Variable pretty_rest : event -> option str.
+
+  Definition write_log (e : event) : str * list str :=
+    (debug_log strip_raw false e, out_log strip_raw pretty_rest e).
+  Definition recv_log (e : event) : str * list str :=
+    (debug_log_in strip_raw e, out_log strip_raw pretty_rest e).
+  Definition output_log (o : output) : str * list str :=
+    match o with
+    | Write e => write_log e
+    | InjectError t => recv_log (error_event t)
+    end.
+
+  (* registration (internalConnect) *)
+  Definition registration_log (c : config) : list (str * list str) :=
+    List.map write_log (registration_writes c).
+
+  (* the events of a history, fed one by one as in `run`; nothing is dequeued any more
+     once Connect has returned *)
+  Fixpoint session_log (c : config) (cn : conn) (h : list event) : list (str * list str) :=
+    match h with
+    | [] => []
+    | e :: h' =>
+      match feed c cn e with
+      | Ok (cn1, outs) =>
+        (match cn_returned cn with
+         | None => recv_log e :: List.map output_log outs
+         | Some _ => []
+         end) ++ session_log c cn1 h'
+      | Panic => []
+      end
+    end.
+End SessionLog.
